@@ -124,6 +124,21 @@ counter n
   ts = timestamp()
 }
 `, []string{"t 1000", "t 2000", "u", "t 0", "r"}},
+	{"stop-as-last-instruction", `counter requests
+counter other
+/^GET/ {
+  requests++
+} else {
+  other++
+  stop
+}
+`, []string{"GET /a", "POST /b", "GET /c", "x"}},
+	{"toplevel-stop-last", `counter seen
+/^s/ {
+  seen++
+}
+stop
+`, []string{"s1", "t", "s2"}},
 	{"strptime-then-plain", `counter stamped
 counter plain
 gauge seen
@@ -309,5 +324,5 @@ func main() {
 	})
 	c.Set("families", len(fams))
 	c.Assume = []string{"datum timestamps are compared only through timestamp() values the programs store in gauges (processing-time stamps differ between the two VMs by construction)", strings.TrimSpace("histogram metrics are not part of this family (their state cannot be populated through the public datum API)")}
-	c.Finish("10 program families built around per-VM carried state (strptime memo, time register, terminate flag, match registers, matched flag, runtime errors) × all (history, line) pairs with |history|<=3 (thorough 4) over each family's 4-6 line alphabet; VM with history vs fresh VM populated with the same metric values; distinct_nontrivial = distinct cases with a non-empty history")
+	c.Finish("12 program families built around per-VM carried state (strptime memo, time register, terminate flag, match registers, matched flag, runtime errors) × all (history, line) pairs with |history|<=3 (thorough 4) over each family's 4-6 line alphabet; VM with history vs fresh VM populated with the same metric values; distinct_nontrivial = distinct cases with a non-empty history")
 }
